@@ -25,7 +25,7 @@ import (
 func init() {
 	Register("oracle14", runOracle14)
 	RegisterPlan(Plan{Prop: "C14", Engine: "oracle14", Quick: 40, Thorough: 600, Level: "fault_enumeration", MinCases: 8,
-		Rule: "histories of the oracle workload (40-60 blocks, including accepted and refused parameter updates; see C12/C13) recorded as per-block transaction bytes; for EVERY height h of each history a replica replays 1..h, restarts (fresh ExocoreApp over the same DB + reset of the oracle's package-level state), continues, and its per-block trace (app hash, per-tx code/gas/data, validator updates, oracle store digest, normalised in-memory digest H1) is compared with the uninterrupted run; every 4th history additionally restarts at 2-4 heights in one replica. Distinct = ⟨round phase at the restart point (mid-window / window end / idle / right after finalisation / right after a validator-set change), #feeders with an open round⟩."})
+		Rule: "histories of the oracle workload (40-60 blocks, including accepted and refused parameter updates; see C12/C13) recorded as per-block transaction bytes; for EVERY height h of each history a replica replays 1..h, restarts (fresh ExocoreApp over the same DB + reset of the oracle's package-level state), continues, and its per-block trace (app hash, per-tx code/gas/data, validator updates, oracle store digest, normalised in-memory digest H1) is compared with the uninterrupted run; every 4th history additionally restarts at 2-4 heights in one replica. Distinct = ⟨round phase at the restart point (mid-window / window end / idle / right after finalisation / right after a validator-set change / right after a parameter change), #feeders with an open round⟩."})
 }
 
 type blockScript struct {
@@ -308,6 +308,7 @@ func runScript(cfg sim.Config, script []blockScript, restarts []int, phases map[
 		rs[h] = true
 	}
 	var out []blockTrace
+	prevParams := ""
 	for i, b := range script {
 		t, ok := replayBlock(c, b)
 		if !ok {
@@ -327,6 +328,16 @@ func runScript(cfg sim.Config, script []blockScript, restarts []int, phases map[
 		}
 		if t.valUpd != valUpdDigest(nil) {
 			ph += "|validator-set-changed"
+		}
+		pp := c.App.OracleKeeper.GetParams(c.CheckCtx())
+		if pb, err := pp.Marshal(); err == nil {
+			// the check state is the state just committed
+			if d := hashBytes(pb); prevParams != "" && d != prevParams {
+				ph += "|params-changed"
+				prevParams = d
+			} else if prevParams == "" {
+				prevParams = d
+			}
 		}
 		if strings.Contains(ph, "idle") && len(t.txs) > 0 {
 			ph = "idle-after-traffic"
